@@ -132,7 +132,7 @@ def run_check(pid, tier, replay=None):
 
     # 2. proof obligations -------------------------------------------------------------------
     obligations = []
-    forbidden = common.grep_forbidden()
+    forbidden = common.grep_forbidden(prop.lean_files)
     if forbidden:
         broken.append({'kind': 'audit', 'name': 'forbidden tokens in Lean sources', 'detail': forbidden})
     lean_wall = 0.0
